@@ -6,6 +6,8 @@ from collections import Counter
 import numpy as np
 from hypothesis import strategies as st
 
+from ..core import sampled_from  # noqa: E402
+
 from .. import build, meshgen, refmodel
 from ..core import Failure
 from . import c02
@@ -54,7 +56,7 @@ def enumerate_cases(tier, shard, nshards, ctx):
 @st.composite
 def _case(draw, tier):
     big = tier != "quick"
-    kind = draw(st.sampled_from(["any", "any", "any", "subdiv", "polefan", "mpas"] + (["big"] if big else [])))
+    kind = draw(sampled_from(["any", "any", "any", "subdiv", "polefan", "mpas"] + (["big"] if big else [])))
     source = "topology"
     extra = {}
     if kind == "big":
@@ -70,9 +72,9 @@ def _case(draw, tier):
         if draw(st.integers(0, 4)) == 0:
             extra["withhold"] = sorted(writers_EDGE_TABLES)
         else:
-            extra["withhold"] = sorted(draw(st.sets(st.sampled_from(["edgesOnCell", "cellsOnEdge", "cellsOnCell"]))))
+            extra["withhold"] = sorted(draw(st.sets(sampled_from(["edgesOnCell", "cellsOnEdge", "cellsOnCell"]))))
         extra["edge_perm_seed"] = draw(st.integers(0, 2**16))
-        extra["int_dtype"] = draw(st.sampled_from(["int32", "int64"]))
+        extra["int_dtype"] = draw(sampled_from(["int32", "int64"]))
         extra["opened_before"] = draw(st.booleans())
     else:
         mesh = draw(meshgen.any_mesh(max_pts=40 if big else 20, orphans=True))
@@ -81,7 +83,7 @@ def _case(draw, tier):
     c = {"mesh": mesh, "access": draw(st.permutations([0, 1, 2, 3, 4, 5])), "source": source}
     # history: operations that only read the incidence tables (differences, gradients, aggregations, the dual, a
     # subset), run before the tables are first read or between two reads; the tables judged are those read last
-    c["ops"] = draw(st.lists(st.sampled_from(OPS), max_size=3))
+    c["ops"] = draw(st.lists(sampled_from(OPS), max_size=3))
     c["ops_first"] = draw(st.booleans())
     c.update(extra)
     return c
